@@ -142,7 +142,7 @@ def units(w):
         for cls, meth, mk in (("ValueSet", "asList", mkset), ("ValueSet", "getSortedItems", mkset), ("ValueSet", "__repr__", mkset), ("ValueSet", "__hash__", mkset),
                               ("ValueMap", "asList", mkmap), ("ValueMap", "asSet", mkmap), ("ValueMap", "getSortedKeys", mkmap), ("ValueMap", "__repr__", mkmap),
                               ("ValueMap", "__hash__", mkmap), ("ValueMap", "asObject", mkstrmap)):
-            if mk is None:
+            if mk is None or (meth == "asObject" and n > 3):      # (string-keyed maps: three distinct symbolic texts are the solver's limit)
                 continue
             f = w.func(f"values.py::{cls}.{meth}")
             u = rel_unit(f"values.py::{cls}.{meth}", "receiver", lambda it, n=n, mk=mk: [mk(it, n)], lambda it, a, f=f: it.call_func(f, a, {}), n)
